@@ -337,7 +337,8 @@ def c08_repeat_task(arg):
     try:
         ts = [{"path": "t%d" % i} for i in range(ntargets)]
         extra = {"sequences": {"twice": ["build", "build"], "mix": ["build", "test", "build"]}}
-        r = sc.Repo(s, "r", ts, commands={t["path"]: {"build": "x", "test": "x"} for t in ts}, init_git=False, cfg_extra=extra)
+        r = sc.Repo(s, "r", ts, commands={t["path"]: {"build": "x", "test": "x"} for t in ts}, init_git=False, cfg_extra=extra,
+                    max_retained_runs=1 if how == "slot reuse" else None)
         long_out = b"".join(b"first execution line %04d of a long log\n" % i for i in range(400))
         short_out = b"second execution: one short line\n"
         for t in ts:
@@ -345,7 +346,13 @@ def c08_repeat_task(arg):
             r.set_script(t["path"], "build", ["out " + short_out.hex(), "err " + short_out.hex(), "exit 0"], nth=2)
             r.set_script(t["path"], "test", ["out " + b"test\n".hex(), "exit 0"])
         args = {"-c twice": ["run", "-c", "build", "build"], "sequence twice": ["run", "-s", "twice"], "sequence mix": ["run", "-s", "mix"],
-                "sequence plus -c": ["run", "-s", "twice"]}[how]
+                "sequence plus -c": ["run", "-s", "twice"], "slot reuse": ["run", "-c", "build"]}[how]
+        if how == "slot reuse":
+            # two separate runs with max_retained_runs = 1: the second run reuses the slot that still
+            # holds the first run's longer logs
+            first = r.mr(*args, env=r.trace_env())
+            if first.code != 0:
+                return {"judged": 1, "v": [("e2e-run-failed", "%s: first run exit %s %s" % (how, first.code, first.err[:200]), {"cli_c08_repeat": [how, ntargets]})]}
         res = r.mr(*args, env=r.trace_env())
         doc = res.json()
         v = []
@@ -430,7 +437,7 @@ def run_slice(prop, tier):
         lis = [["--stdout", "--stderr"]] if tier == "quick" else [["--stdout", "--stderr"], ["--stdout"], ["--stderr", "-t", "t0"], ["--stdout", "--stderr", "-c", "build"]]
         tasks += [(n, l, e, k, f) for (n, l, e) in scripts for k in ((2,) if tier == "quick" else (1, 3)) for f in lis]
         res = common.pmap(c08_task, tasks)
-        res += common.pmap(c08_repeat_task, [(how, k) for how in ("-c twice", "sequence twice", "sequence mix") for k in (1, 3)])
+        res += common.pmap(c08_repeat_task, [(how, k) for how in ("-c twice", "sequence twice", "sequence mix", "slot reuse") for k in (1, 3)])
         res += common.pmap(c08_show_filters_task, [0])
     else:
         return 0, []
